@@ -64,7 +64,7 @@ def main():
             if c["what"] in seen_kinds and len(seen_kinds) < len({x["what"] for x in cands}): continue
             seen_kinds.add(c["what"])
             try:
-                ok, note, payload = nativereplay.replay(scratch, rp, c, params, profiles=(False,))
+                ok, note, payload = nativereplay.replay(scratch, rp, c, params, profiles=(False,), variants=False)
             except Exception as e:
                 continue
             if payload is None: continue
